@@ -43,6 +43,15 @@ func c08Programs() map[string]e3Spec {
 			"TestAB":  {Calls: []e3Call{{API: "sjson", Cfg: "default"}}},
 			"Test1":   {Calls: []e3Call{snap("default")}},
 		},
+		"P4-nested-skips": {
+			"TestA": {Calls: []e3Call{snap("default")}, Subs: []e3Sub{
+				{Name: "v1", Calls: []e3Call{snap("default")}, Subs: []e3Sub{{Name: "list", Calls: []e3Call{snap("default"), snap("default")}}, {Name: "create", Calls: []e3Call{snap("default")}}}},
+				{Name: "v1.1", Calls: []e3Call{snap("default")}, Subs: []e3Sub{{Name: "list", Calls: []e3Call{snap("default")}}}},
+				{Name: "v1#x", Calls: []e3Call{snap("default")}},
+			}},
+			"TestAB": {Calls: []e3Call{snap("default")}},
+			"TestB":  {Calls: []e3Call{snap("default")}},
+		},
 		"P3-sole-owner": {
 			"TestB":   {Calls: []e3Call{snap("default"), {API: "ssnap", Cfg: "default"}}},
 			"TestA":   {Calls: []e3Call{snap("default")}},
@@ -54,23 +63,30 @@ func c08Programs() map[string]e3Spec {
 var c08Patterns = []string{"", "TestA", "^TestA$", "TestA$", "A", "B", "Sub", "sub", "x", "^x$", "1", "TestA/x", "TestA/^x$", "/x", "A/x/y", "TestA|TestB",
 	"TestA/x|TestB", "^Test(A|B)$", "Test[AB]", ".", "TestZ", "NoSnap", "NoSnap|TestA$", "_-_1", "TestZ|sub"}
 
-var c08SkipCandidates = []string{"TestA", "TestB", "TestSub", "TestA/x", "TestB/x"}
+var c08SkipCandidates = []string{"TestA", "TestB", "TestSub", "TestA/x", "TestB/x", "TestA/v1", "TestA/v1.1", "TestA/v1#x"}
 
 // c08ApplySkips returns a copy of the program with the skip calls planted.
 func c08ApplySkips(prog e3Spec, skips map[string]string) e3Spec {
+	var subs func(prefix string, in []e3Sub) []e3Sub
+	subs = func(prefix string, in []e3Sub) []e3Sub {
+		var out []e3Sub
+		for _, s := range in {
+			ns := s
+			if how, ok := skips[prefix+"/"+s.Name]; ok {
+				ns.Skip = how
+			}
+			ns.Subs = subs(prefix+"/"+s.Name, s.Subs)
+			out = append(out, ns)
+		}
+		return out
+	}
 	out := e3Spec{}
 	for name, t := range prog {
 		nt := e3Test{Skip: t.Skip, Calls: t.Calls}
 		if how, ok := skips[name]; ok {
 			nt.Skip = how
 		}
-		for _, s := range t.Subs {
-			ns := s
-			if how, ok := skips[name+"/"+s.Name]; ok {
-				ns.Skip = how
-			}
-			nt.Subs = append(nt.Subs, ns)
-		}
+		nt.Subs = subs(name, t.Subs)
 		out[name] = nt
 	}
 	return out
@@ -79,15 +95,20 @@ func c08ApplySkips(prog e3Spec, skips map[string]string) e3Spec {
 // c08Declared lists every test (and subtest) of the program that makes calls.
 func c08Declared(prog e3Spec) []string {
 	var out []string
+	var walk func(prefix string, in []e3Sub)
+	walk = func(prefix string, in []e3Sub) {
+		for _, s := range in {
+			if len(s.Calls) > 0 {
+				out = append(out, prefix+"/"+s.Name)
+			}
+			walk(prefix+"/"+s.Name, s.Subs)
+		}
+	}
 	for name, t := range prog {
 		if len(t.Calls) > 0 {
 			out = append(out, name)
 		}
-		for _, s := range t.Subs {
-			if len(s.Calls) > 0 {
-				out = append(out, name+"/"+s.Name)
-			}
-		}
+		walk(name, t.Subs)
 	}
 	sort.Strings(out)
 	return out
@@ -145,6 +166,19 @@ func c08Attribute(tree e3Tree, trace []string) c08Owned {
 	return o
 }
 
+func c08SkipsExist(prog e3Spec, ss map[string]string) bool {
+	decl := map[string]bool{}
+	for _, d := range c08Declared(prog) {
+		decl[d] = true
+	}
+	for n := range ss {
+		if !decl[n] {
+			return false
+		}
+	}
+	return true
+}
+
 func runC08(tier, scratch, replay string, nworkers int) *merged {
 	m := newMerged()
 	m.rule = "programs of the fixed E3 module (default-named, custom-named/extension/standalone, sole-owner files) x every set of <=2 tests calling snaps.Skip/Skipf/SkipNow x 25 -run patterns x Clean mode {report, clean} x sort; " +
@@ -181,6 +215,9 @@ func runC08(tier, scratch, replay string, nworkers int) *merged {
 		sort.Strings(pnames)
 		for _, pn := range pnames {
 			for si, ss := range skipSets {
+				if !c08SkipsExist(progs[pn], ss) {
+					continue
+				}
 				for pi, pat := range c08Patterns {
 					for _, env := range []string{"clean", ""} {
 						for _, srt := range []bool{false, true} {
@@ -327,15 +364,21 @@ func runC08(tier, scratch, replay string, nworkers int) *merged {
 		for _, f := range sum.obsFiles {
 			listedFile[f] = true
 		}
-		class := func(name string, itemIsFile bool, file string) string {
+		runRe, _ := regexp.Compile(cell.Run)
+		// the predicates of the known findings are functions of the cell and of the item that is hit
+		class := func(name string, itemIsFile bool, file, id string) string {
 			switch {
-			case cell.Run == "" && bySkip(name) && itemIsFile:
+			case bySkip(name) && itemIsFile:
+				// F5: the skip list is never consulted when whole files are examined
 				return "F5-skipped-owner-file-not-protected"
-			case cell.Run != "" && !itemIsFile:
+			case cell.Run != "" && !itemIsFile && !bySkip(name) && runRe != nil && runRe.MatchString(id):
+				// K3: the pattern, taken as ONE unanchored regexp, matches the whole id `name - n` although Go did not select the test
 				return "K3-run-pattern-regexp-vs-go-matching"
-			case cell.Run != "" && itemIsFile && (file == "a_test.snap" || file == "b_test.snap"):
+			case cell.Run != "" && itemIsFile && !bySkip(name) && (file == "a_test.snap" || file == "b_test.snap") && c08SourceHasMatch(file, runRe):
+				// K7: some function of the source file matches the pattern
 				return "K7-file-level-rule-function-in-source-matches"
-			case cell.Run != "" && itemIsFile:
+			case cell.Run != "" && itemIsFile && file != "a_test.snap" && file != "b_test.snap":
+				// K4: no source file is named after this snapshot file
 				return "K4-file-skip-derives-source-name-from-snapshot-name"
 			}
 			return ""
@@ -350,7 +393,7 @@ func runC08(tier, scratch, replay string, nworkers int) *merged {
 				}
 				data, still := after[file]
 				if !still {
-					m.viol(class(name, true, file), fmt.Sprintf("test %s did not run (%s); file %s holding its entry [%s] was removed (summary files %v)", name, why, file, id, sum.obsFiles), cell)
+					m.viol(class(name, true, file, id), fmt.Sprintf("test %s did not run (%s); file %s holding its entry [%s] was removed (summary files %v)", name, why, file, id, sum.obsFiles), cell)
 					continue
 				}
 				es, _ := e3Parse(data)
@@ -361,11 +404,11 @@ func runC08(tier, scratch, replay string, nworkers int) *merged {
 					}
 				}
 				if !found {
-					m.viol(class(name, false, file), fmt.Sprintf("test %s did not run (%s); its entry [%s] was removed from %s (summary tests %v)", name, why, id, file, sum.obsTests), cell)
+					m.viol(class(name, false, file, id), fmt.Sprintf("test %s did not run (%s); its entry [%s] was removed from %s (summary tests %v)", name, why, id, file, sum.obsTests), cell)
 				} else if listedTest[id] {
-					m.viol(class(name, false, file), fmt.Sprintf("test %s did not run (%s); its entry [%s] is listed obsolete", name, why, id), cell)
+					m.viol(class(name, false, file, id), fmt.Sprintf("test %s did not run (%s); its entry [%s] is listed obsolete", name, why, id), cell)
 				} else if listedFile[filepath.Base(file)] {
-					m.viol(class(name, true, file), fmt.Sprintf("test %s did not run (%s); file %s holding its entry is listed obsolete", name, why, file), cell)
+					m.viol(class(name, true, file, id), fmt.Sprintf("test %s did not run (%s); file %s holding its entry is listed obsolete", name, why, file), cell)
 				}
 			}
 			for _, file := range r.owned.files[name] {
@@ -374,11 +417,11 @@ func runC08(tier, scratch, replay string, nworkers int) *merged {
 					why = "skipped through snaps.Skip*"
 				}
 				if _, still := after[file]; !still {
-					m.viol(class(name, true, file), fmt.Sprintf("test %s did not run (%s); its standalone file %s was removed", name, why, file), cell)
+					m.viol(class(name, true, file, ""), fmt.Sprintf("test %s did not run (%s); its standalone file %s was removed", name, why, file), cell)
 				} else if after[file] != r.tree[file] {
-					m.viol(class(name, true, file), fmt.Sprintf("test %s did not run (%s); its standalone file %s was altered", name, why, file), cell)
+					m.viol(class(name, true, file, ""), fmt.Sprintf("test %s did not run (%s); its standalone file %s was altered", name, why, file), cell)
 				} else if listedFile[file] {
-					m.viol(class(name, true, file), fmt.Sprintf("test %s did not run (%s); its standalone file %s is listed obsolete", name, why, file), cell)
+					m.viol(class(name, true, file, ""), fmt.Sprintf("test %s did not run (%s); its standalone file %s is listed obsolete", name, why, file), cell)
 				}
 			}
 		}
@@ -412,6 +455,27 @@ func ranOrProtectedUsesFile(o c08Owned, file string, ran map[string]bool) bool {
 			if strings.HasPrefix(fe, file+"\x00") {
 				return true
 			}
+		}
+	}
+	return false
+}
+
+// c08SourceHasMatch: does some test function declared in the source file that
+// corresponds to the snapshot file match the pattern (unanchored)?
+func c08SourceHasMatch(snapFile string, re *regexp.Regexp) bool {
+	if re == nil {
+		return false
+	}
+	src := strings.TrimSuffix(snapFile, ".snap") + ".go"
+	for _, fn := range e3Files[src] {
+		if re.MatchString(fn) {
+			return true
+		}
+	}
+	// helper functions generated into every test file
+	for _, fn := range []string{"cfg", "do", "skip", "run", "runSubs"} {
+		if re.MatchString(fn + strings.ToUpper(src[:1])) {
+			return true
 		}
 	}
 	return false
